@@ -206,7 +206,7 @@ PROPS = {
         timeout={"quick": 900, "thorough": 3600},
     ),
     "C06": dict(
-        lean_modules=["Liftbridge.Props.C06"],
+        lean_modules=["Liftbridge.Props.C06", "Liftbridge.Props.GoFSM"],
         gen_sources=["server/fsm.go", "server/metadata.go", "server/partition.go", "server/groups.go", "server/protocol/internal.proto"],
         runs=[dict(go_pkg="./server", test="TestVerifC06"),
               dict(go_pkg="./server", test="TestVerifC06Race", go_flags=["-race"])],
